@@ -50,6 +50,13 @@ Definition route_op (o : pop) : bool :=
 Definition capacity_free (st : pstate) : Prop :=
   forall rest, Forall (fun l => 0 <= l <= pcap st) (loads (pg st) (pinit st) rest).
 
+(* no depot self-arc in the VRPTW graph: the empty trip D -> D is not a route (the independent
+   reference solver of the runtime check does not count it either) *)
+Definition no_depot_loop (st : pstate) : Prop := dict_mem (O, O) (arcs (pg st)) = false.
+
+(* the customers served by a list of routes, in route order *)
+Definition served (R : list (list nat)) : list nat := concat (map interior R).
+
 (* ---------- 0-1 vectors over the pool ---------- *)
 (* the entries of l selected by the non-zero entries of x (what get_routes reads) *)
 Fixpoint select {A} (x : nat -> Z) (l : list A) : list A :=
